@@ -162,6 +162,21 @@ func main() {
 		}
 		reports = append(reports, fr)
 	}
+	// lemmas over contracts / spec functions
+	for _, lm := range db.lemmas {
+		if *only != "" || (*prop != "" && !hasTag(lm.props, *prop)) {
+			continue
+		}
+		x := newExecutor(prog, db)
+		o, err := x.verifyLemma(lm)
+		if err != nil {
+			fmt.Fprintln(os.Stderr, "govc: engine error:", err)
+			all = append(all, &obligation{name: "lemma:" + lm.name + "/contract-anchor", kind: "contract-anchor", status: "unknown", detail: err.Error(), goal: tFalse})
+			continue
+		}
+		all = append(all, o)
+		reports = append(reports, funcReport{Key: "lemma:" + lm.name, Mode: lm.mode, Paths: 1, Obligations: 1, Axioms: sortedKeys(x.axiomsUsed)})
+	}
 	tGen := time.Since(t0).Seconds() - tLoad
 
 	scratch, _ := os.MkdirTemp("", "govc-")
